@@ -34,12 +34,70 @@ type omState struct {
 }
 
 type omCase struct {
+	Spell     map[string]string `json:"spell,omitempty"` // a row of OrderedMap!Spellings (placeholders as TLC printed them); nil = keys spelled as named
 	Container string    `json:"container"`
 	Ops       []omOp    `json:"ops"`
 	Expect    []omState `json:"expect"` // state after each op (same length as Ops)
 }
 
 var omKeys = []string{"k1", "k2", "k3", "k4", "k5", "k6"}
+
+// omSpelling: what the abstract keys of the model are spelled like in the real container (OrderedMap!Spellings).
+// nil = spelled as named. The observation is translated back, so the comparison with the model is unchanged.
+type omSpelling struct {
+	fwd, back map[string]string
+}
+
+func (sp *omSpelling) f(k string) string {
+	if sp == nil {
+		return k
+	}
+	if x, ok := sp.fwd[k]; ok {
+		return x
+	}
+	return k
+}
+func (sp *omSpelling) b(k string) string {
+	if sp == nil {
+		return k
+	}
+	if x, ok := sp.back[k]; ok {
+		return x
+	}
+	if _, spelled := sp.fwd[k]; spelled {
+		return "unknown-key(" + fmt.Sprintf("%q", k) + ")" // the name of a key that is spelled differently
+	}
+	return k // keys beyond the table (large universes) are spelled as named
+}
+func (sp *omSpelling) backAll(es []string) []string {
+	if sp == nil {
+		return es
+	}
+	out := make([]string, len(es))
+	for i, e := range es {
+		j := strings.LastIndex(e, "=")
+		out[i] = sp.b(e[:j]) + e[j:]
+	}
+	return out
+}
+
+// TLC prints ASCII only: characters outside it travel as placeholders.
+var omPlaceholders = strings.NewReplacer("<NUL>", "\x00", "<SOH>", "\x01", "<BEL>", "\a", "<VT>", "\v", "<DEL>", "\x7f", "<EACUTE>", "\u00e9", "<LS>", "\u2028", "<CUP>", "\U0001F3C6")
+
+var omSpellTabs = []map[string]string{nil} // [0] = nil (identity); the rest is read from the specification in runC19
+
+func omSpellingOf(t map[string]string) *omSpelling {
+	if t == nil {
+		return nil
+	}
+	sp := &omSpelling{fwd: map[string]string{}, back: map[string]string{}}
+	for k, v := range t {
+		v = omPlaceholders.Replace(v)
+		sp.fwd[k] = v
+		sp.back[v] = k
+	}
+	return sp
+}
 
 // ---- adapters over the four real containers ----
 
@@ -105,32 +163,35 @@ func orderedJSON(b []byte, val func(json.RawMessage) string) ([]string, error) {
 }
 
 // -- RuleASTNodes
-type ruleNodesAd struct{ m *schema.RuleASTNodes }
+type ruleNodesAd struct {
+	m  *schema.RuleASTNodes
+	sp *omSpelling
+}
 
 func (a ruleNodesAd) supports(string) bool { return true }
 func (a ruleNodesAd) apply(op omOp) {
 	switch op.Op {
 	case "set":
-		a.m.Set(op.K, schema.RuleASTNode{Value: op.V})
+		a.m.Set(a.sp.f(op.K), schema.RuleASTNode{Value: op.V})
 	case "update":
-		a.m.Update(op.K, func(schema.RuleASTNode) schema.RuleASTNode { return schema.RuleASTNode{Value: op.V} })
+		a.m.Update(a.sp.f(op.K), func(schema.RuleASTNode) schema.RuleASTNode { return schema.RuleASTNode{Value: op.V} })
 	case "delete":
-		a.m.Delete(op.K)
+		a.m.Delete(a.sp.f(op.K))
 	case "filter":
-		a.m.Filter(func(k string, _ schema.RuleASTNode) bool { return inSet(op.Keys, k) })
+		a.m.Filter(func(k string, _ schema.RuleASTNode) bool { return inSet(op.Keys, a.sp.b(k)) })
 	case "map":
 		_ = a.m.Map(func(k string, v schema.RuleASTNode) (schema.RuleASTNode, error) {
-			if inSet(op.Keys, k) {
+			if inSet(op.Keys, a.sp.b(k)) {
 				return schema.RuleASTNode{Value: op.V}, nil
 			}
 			return v, nil
 		})
 	case "mapfail":
 		_ = a.m.Map(func(k string, v schema.RuleASTNode) (schema.RuleASTNode, error) {
-			if k == op.K {
+			if a.sp.b(k) == op.K {
 				return schema.RuleASTNode{}, errMapCallback
 			}
-			if inSet(op.Keys, k) {
+			if inSet(op.Keys, a.sp.b(k)) {
 				return schema.RuleASTNode{Value: op.V}, nil
 			}
 			return v, nil
@@ -140,25 +201,25 @@ func (a ruleNodesAd) apply(op omOp) {
 func (a ruleNodesAd) observe(keys []string) (omObs, []string) {
 	o := omObs{Has: map[string]bool{}, Get: map[string]string{}, Find: map[string]string{}}
 	o.Len = a.m.Len()
-	_ = a.m.Each(func(k string, v schema.RuleASTNode) error { o.Each = append(o.Each, k+"="+v.Value); return nil })
-	a.m.EachSafe(func(k string, v schema.RuleASTNode) { o.EachSafe = append(o.EachSafe, k+"="+v.Value) })
+	_ = a.m.Each(func(k string, v schema.RuleASTNode) error { o.Each = append(o.Each, a.sp.b(k)+"="+v.Value); return nil })
+	a.m.EachSafe(func(k string, v schema.RuleASTNode) { o.EachSafe = append(o.EachSafe, a.sp.b(k)+"="+v.Value) })
 	for _, k := range keys {
-		o.Has[k] = a.m.Has(k)
-		if v, ok := a.m.Get(k); ok {
+		o.Has[k] = a.m.Has(a.sp.f(k))
+		if v, ok := a.m.Get(a.sp.f(k)); ok {
 			o.Get[k] = v.Value
 		}
 	}
 	for _, mask := range omMasks {
 		it, ok := a.m.Find(func(k string, _ schema.RuleASTNode) bool {
 			for i, kk := range omKeys {
-				if kk == k && mask&(1<<i) != 0 {
+				if kk == a.sp.b(k) && mask&(1<<i) != 0 {
 					return true
 				}
 			}
 			return false
 		})
 		if ok {
-			o.Find[subsetName(mask)] = it.Key + "=" + it.Value.Value
+			o.Find[subsetName(mask)] = a.sp.b(it.Key) + "=" + it.Value.Value
 		} else {
 			o.Find[subsetName(mask)] = "none"
 		}
@@ -175,11 +236,12 @@ func (a ruleNodesAd) observe(keys []string) (omObs, []string) {
 		if err != nil {
 			o.JSONErr = err.Error()
 		}
+		o.JSON = a.sp.backAll(o.JSON)
 	}
 	var inc []string
 	// the early-exit path of Each must see the same first element
 	first := ""
-	_ = a.m.Each(func(k string, v schema.RuleASTNode) error { first = k; return errors.New("stop") })
+	_ = a.m.Each(func(k string, v schema.RuleASTNode) error { first = a.sp.b(k); return errors.New("stop") })
 	if len(o.Each) > 0 && !strings.HasPrefix(o.Each[0], first+"=") {
 		inc = append(inc, "Each with early stop saw a different first key")
 	}
@@ -187,32 +249,35 @@ func (a ruleNodesAd) observe(keys []string) (omObs, []string) {
 }
 
 // -- ASTNodes
-type astNodesAd struct{ m *schema.ASTNodes }
+type astNodesAd struct {
+	m  *schema.ASTNodes
+	sp *omSpelling
+}
 
 func (a astNodesAd) supports(string) bool { return true }
 func (a astNodesAd) apply(op omOp) {
 	switch op.Op {
 	case "set":
-		a.m.Set(op.K, schema.ASTNode{Value: op.V})
+		a.m.Set(a.sp.f(op.K), schema.ASTNode{Value: op.V})
 	case "update":
-		a.m.Update(op.K, func(schema.ASTNode) schema.ASTNode { return schema.ASTNode{Value: op.V} })
+		a.m.Update(a.sp.f(op.K), func(schema.ASTNode) schema.ASTNode { return schema.ASTNode{Value: op.V} })
 	case "delete":
-		a.m.Delete(op.K)
+		a.m.Delete(a.sp.f(op.K))
 	case "filter":
-		a.m.Filter(func(k string, _ schema.ASTNode) bool { return inSet(op.Keys, k) })
+		a.m.Filter(func(k string, _ schema.ASTNode) bool { return inSet(op.Keys, a.sp.b(k)) })
 	case "map":
 		_ = a.m.Map(func(k string, v schema.ASTNode) (schema.ASTNode, error) {
-			if inSet(op.Keys, k) {
+			if inSet(op.Keys, a.sp.b(k)) {
 				return schema.ASTNode{Value: op.V}, nil
 			}
 			return v, nil
 		})
 	case "mapfail":
 		_ = a.m.Map(func(k string, v schema.ASTNode) (schema.ASTNode, error) {
-			if k == op.K {
+			if a.sp.b(k) == op.K {
 				return schema.ASTNode{}, errMapCallback
 			}
-			if inSet(op.Keys, k) {
+			if inSet(op.Keys, a.sp.b(k)) {
 				return schema.ASTNode{Value: op.V}, nil
 			}
 			return v, nil
@@ -222,25 +287,25 @@ func (a astNodesAd) apply(op omOp) {
 func (a astNodesAd) observe(keys []string) (omObs, []string) {
 	o := omObs{Has: map[string]bool{}, Get: map[string]string{}, Find: map[string]string{}}
 	o.Len = a.m.Len()
-	_ = a.m.Each(func(k string, v schema.ASTNode) error { o.Each = append(o.Each, k+"="+v.Value); return nil })
-	a.m.EachSafe(func(k string, v schema.ASTNode) { o.EachSafe = append(o.EachSafe, k+"="+v.Value) })
+	_ = a.m.Each(func(k string, v schema.ASTNode) error { o.Each = append(o.Each, a.sp.b(k)+"="+v.Value); return nil })
+	a.m.EachSafe(func(k string, v schema.ASTNode) { o.EachSafe = append(o.EachSafe, a.sp.b(k)+"="+v.Value) })
 	for _, k := range keys {
-		o.Has[k] = a.m.Has(k)
-		if v, ok := a.m.Get(k); ok {
+		o.Has[k] = a.m.Has(a.sp.f(k))
+		if v, ok := a.m.Get(a.sp.f(k)); ok {
 			o.Get[k] = v.Value
 		}
 	}
 	for _, mask := range omMasks {
 		it, ok := a.m.Find(func(k string, _ schema.ASTNode) bool {
 			for i, kk := range omKeys {
-				if kk == k && mask&(1<<i) != 0 {
+				if kk == a.sp.b(k) && mask&(1<<i) != 0 {
 					return true
 				}
 			}
 			return false
 		})
 		if ok {
-			o.Find[subsetName(mask)] = it.Key + "=" + it.Value.Value
+			o.Find[subsetName(mask)] = a.sp.b(it.Key) + "=" + it.Value.Value
 		} else {
 			o.Find[subsetName(mask)] = "none"
 		}
@@ -257,6 +322,7 @@ func (a astNodesAd) observe(keys []string) (omObs, []string) {
 		if err != nil {
 			o.JSONErr = err.Error()
 		}
+		o.JSON = a.sp.backAll(o.JSON)
 	}
 	return o, nil
 }
@@ -366,43 +432,46 @@ func (a constraintsAd) observe(keys []string) (omObs, []string) {
 }
 
 // -- StringSet (Add/Has/Len/Data only)
-type stringSetAd struct{ m *jschema.StringSet }
+type stringSetAd struct {
+	m  *jschema.StringSet
+	sp *omSpelling
+}
 
 func (a stringSetAd) supports(op string) bool { return op == "set" }
 func (a stringSetAd) apply(op omOp) {
 	if op.Op == "set" {
-		a.m.Add(op.K)
+		a.m.Add(a.sp.f(op.K))
 	}
 }
 func (a stringSetAd) observe(keys []string) (omObs, []string) {
 	o := omObs{Has: map[string]bool{}, Get: map[string]string{}, Find: nil}
 	o.Len = a.m.Len()
 	for _, k := range a.m.Data() {
-		o.Each = append(o.Each, k)
+		o.Each = append(o.Each, a.sp.b(k))
 	}
 	o.EachSafe = o.Each
 	for _, k := range keys {
-		o.Has[k] = a.m.Has(k)
+		o.Has[k] = a.m.Has(a.sp.f(k))
 	}
 	return o, nil
 }
 
-func newOmAdapter(name string) omAdapter {
+func newOmAdapter(name string, sp *omSpelling) omAdapter {
 	switch name {
 	case "RuleASTNodes":
-		return ruleNodesAd{&schema.RuleASTNodes{}}
+		return ruleNodesAd{&schema.RuleASTNodes{}, sp}
 	case "RuleASTNodes.Make":
-		return ruleNodesAd{schema.MakeRuleASTNodes(1)}
+		return ruleNodesAd{schema.MakeRuleASTNodes(1), sp}
 	case "RuleASTNodes.Make8":
-		return ruleNodesAd{schema.MakeRuleASTNodes(8)}
+		return ruleNodesAd{schema.MakeRuleASTNodes(8), sp}
 	case "ASTNodes":
-		return astNodesAd{&schema.ASTNodes{}}
+		return astNodesAd{&schema.ASTNodes{}, sp}
 	case "Constraints":
 		return constraintsAd{&ischema.Constraints{}}
 	case "StringSet":
-		return stringSetAd{&jschema.StringSet{}}
+		return stringSetAd{&jschema.StringSet{}, sp}
 	case "StringSet.New":
-		return stringSetAd{jschema.NewStringSet()}
+		return stringSetAd{jschema.NewStringSet(), sp}
 	}
 	panic("unknown container " + name)
 }
@@ -484,7 +553,7 @@ func omCompare(container string, exp omState, o omObs, inc []string, lastOp stri
 // omEval replays one case; compares after every op when Expect has all states, else at the end.
 func omEval(cs omCase) []core.Finding {
 	return core.Guard(cs.Container, func() []core.Finding {
-		ad := newOmAdapter(cs.Container)
+		ad := newOmAdapter(cs.Container, omSpellingOf(cs.Spell))
 		var fs []core.Finding
 		for i, op := range cs.Ops {
 			if !ad.supports(op.Op) {
@@ -564,6 +633,20 @@ func runC19(c *core.Ctx) error {
 		return err
 	}
 	c.AddTLC("OrderedMap_graph.cfg", res)
+	omSpellTabs = []map[string]string{nil}
+	for _, l := range res.Lines {
+		var rec struct {
+			Spellings []map[string]string `json:"spellings"`
+		}
+		if json.Unmarshal([]byte(l), &rec) == nil && len(rec.Spellings) > 0 {
+			omSpellTabs = append(omSpellTabs, rec.Spellings...)
+			break
+		}
+	}
+	if len(omSpellTabs) < 2 {
+		return fmt.Errorf("OrderedMap.tla printed no Spellings")
+	}
+	c.Set("key_spellings", len(omSpellTabs))
 	g, err := tlc.LoadDot(res.DotPath)
 	if err != nil {
 		return err
@@ -623,15 +706,23 @@ func runC19(c *core.Ctx) error {
 		ops := append([]omOp{}, a.ops...)
 		exp := append([]omState{}, a.exp...)
 		local := map[string]bool{}
+		nth := ji
 		var rec func(id string, depth int)
 		rec = func(id string, depth int) {
 			if len(ops) > 0 {
-				for _, cont := range omContainers {
-					cs := omCase{Container: cont, Ops: ops, Expect: exp}
-					fs := omEval(cs)
-					c.CountEval(1)
-					if len(fs) > 0 {
-						c.Report(omCase{Container: cont, Ops: append([]omOp{}, ops...), Expect: append([]omState{}, exp...)}, fs)
+				// every path with the keys spelled as named, and under one of the other spellings in rotation
+				nth++
+				for _, tab := range []map[string]string{nil, omSpellTabs[1+nth%(len(omSpellTabs)-1)]} {
+					for _, cont := range omContainers {
+						if tab != nil && cont == "Constraints" {
+							continue // typed keys: nothing to spell
+						}
+						cs := omCase{Spell: tab, Container: cont, Ops: ops, Expect: exp}
+						fs := omEval(cs)
+						c.CountEval(1)
+						if len(fs) > 0 {
+							c.Report(omCase{Spell: tab, Container: cont, Ops: append([]omOp{}, ops...), Expect: append([]omState{}, exp...)}, fs)
+						}
 					}
 				}
 			}
@@ -681,12 +772,17 @@ func runC19(c *core.Ctx) error {
 		walks = append(walks, omCase{Ops: ops, Expect: exp})
 	}
 	core.ParallelFor(len(walks), func(i int) {
-		for _, cont := range omContainers {
-			cs := walks[i]
-			cs.Container = cont
-			fs := omEval(cs)
-			c.CountEval(1)
-			c.Report(cs, fs)
+		for _, tab := range omSpellTabs {
+			for _, cont := range omContainers {
+				if tab != nil && cont == "Constraints" {
+					continue
+				}
+				cs := walks[i]
+				cs.Container, cs.Spell = cont, tab
+				fs := omEval(cs)
+				c.CountEval(1)
+				c.Report(cs, fs)
+			}
 		}
 	})
 	c.Set("random_walks", nw)
@@ -740,12 +836,17 @@ func runC19(c *core.Ctx) error {
 		return fmt.Errorf("OrderedMap simulation produced no behaviour")
 	}
 	core.ParallelFor(len(simCases), func(i int) {
-		for _, cont := range omContainers {
-			cs := simCases[i]
-			cs.Container = cont
-			fs := omEval(cs)
-			c.CountEval(1)
-			c.Report(cs, fs)
+		for _, tab := range omSpellTabs {
+			for _, cont := range omContainers {
+				if tab != nil && cont == "Constraints" {
+					continue
+				}
+				cs := simCases[i]
+				cs.Container, cs.Spell = cont, tab
+				fs := omEval(cs)
+				c.CountEval(1)
+				c.Report(cs, fs)
+			}
 		}
 	})
 	c.Set("simulated_behaviours_6_keys", len(simCases))
@@ -754,7 +855,7 @@ func runC19(c *core.Ctx) error {
 	c.Set("k_from_every_state", k)
 	c.Set("k_from_init", kInit)
 	c.Set("exhaustive", true)
-	c.Assume = append(c.Assume, "keys {k1,k2,k3}, values {v1,v2}: small-scope hypothesis for the container code, which never inspects key or value contents",
+	c.Assume = append(c.Assume, "keys {k1,k2,k3} (six and seventy in the simulated behaviours), values {v1,v2}; keys spelled as named and as the rows of OrderedMap!Spellings spell them (rotating over the exhaustive paths, every row for walks and simulated behaviours); value contents are not varied",
 		"ischema.Constraints.MarshalJSON is not compared (integer keys; container not named by the statement)")
 	return nil
 }
